@@ -63,7 +63,11 @@ CELER_FUNCTION float GenerateCanonical32<float>::operator()(Generator& rng)
                   "Generator must return 32-bit sample");
 
     constexpr float norm = 2.32830643654e-10f;  // 1 / 2**32
-    return norm * rng();
+    // Largest float below one: converting samples above 2**32 - 2**7 to float
+    // rounds them up to 2**32, which would otherwise return exactly 1
+    constexpr float max_result = 0.99999994f;  // 1 - 2**-24
+    float const result = norm * rng();
+    return result < max_result ? result : max_result;
 }
 
 //---------------------------------------------------------------------------//
